@@ -190,9 +190,11 @@ SameTree(a, b) == a = b \/ Equiv(a, b)
 (* ======================= layer 1: Render ================================== *)
 (* style: [unit: wrap every leaf in parentheses, chain: wrap and-chains inside or-chains and
    cds bodies' sub-chains, top: wrap the whole expression, negout: "not ( x )" instead of
-   "( not x )" for wrapped negated leaves, rev: list minimum options in reverse] *)
-Styles == [unit : BOOLEAN, chain : BOOLEAN, top : BOOLEAN, negout : BOOLEAN, rev : BOOLEAN]
-PlainStyle == [unit |-> FALSE, chain |-> FALSE, top |-> FALSE, negout |-> FALSE, rev |-> FALSE]
+   "( not x )" for wrapped negated leaves, rev: list minimum options in reverse, drop: always FALSE] *)
+Styles == [unit : BOOLEAN, chain : BOOLEAN, top : BOOLEAN, negout : BOOLEAN, rev : BOOLEAN, drop : {FALSE}]
+PlainStyle == [unit |-> FALSE, chain |-> FALSE, top |-> FALSE, negout |-> FALSE, rev |-> FALSE, drop |-> FALSE]
+(* negative control only: leaves out the parentheses the grammar needs *)
+DropStyle == [PlainStyle EXCEPT !.drop = TRUE]
 Wrap(toks) == <<"(">> \o toks \o <<")">>
 RECURSIVE CommaList(_, _)
 CommaList(ids, i) == IF i > Len(ids) THEN <<>> ELSE (IF i > 1 THEN <<",">> ELSE <<>>) \o <<ids[i]>> \o CommaList(ids, i + 1)
@@ -213,7 +215,7 @@ Render(x, st, ctx) ==
       [] x.k = "cds" -> not \o <<"cds", "(">> \o Render(x.args[1], st, "cds") \o <<")">>
       [] x.k \in {"and", "or"} ->
             LET body == RenderArgs(x, st, 1, x.k)
-                need == x.neg \/ ctx = "and" \/ (ctx = "or" /\ x.k = "or")
+                need == ~st.drop /\ (x.neg \/ ctx = "and" \/ (ctx = "or" /\ x.k = "or"))
                 extra == (st.chain /\ ctx = "or") \/ (st.top /\ ctx = "top")
             IN  IF need \/ extra THEN not \o Wrap(body) ELSE body
 RenderArgs(x, st, i, op) ==
@@ -277,8 +279,8 @@ PMin(t, j, neg) ==
     ELSE LET ids == PIds(t, j + 5, <<>>) IN
          IF ~ids.ok THEN Fail("syntax", ids.pos)
          ELSE IF ~(K(t, ids.pos) = "]" /\ K(t, ids.pos + 1) = ")") THEN Fail("syntax", ids.pos)
-         ELSE IF ~NoDup(ids.ids) THEN Fail("repeated_minimum_option", j)
-         ELSE IF t[j + 2].n < 1 THEN Fail("minimum_count_not_positive", j)
+         ELSE IF ~NoDup(ids.ids) THEN Fail("repeated_option", j)
+         ELSE IF t[j + 2].n < 1 THEN Fail("minimum_count", j)
          ELSE Ok(Min(t[j + 2].n, RangeOf(ids.ids), neg), ids.pos + 2, {})
 PCds(t, j, neg) ==
     IF K(t, j + 1) # "(" THEN Fail("syntax", j)
@@ -365,10 +367,10 @@ PRule(t, env, known) ==
     IN
     IF ~ext.ok THEN RFail(ext.err, ex.soft)
     ELSE IF K(t, ext.pos) # "EOF" THEN RFail(IF K(t, ext.pos) = ")" THEN "unbalanced_group" ELSE "syntax", soft)
-    ELSE IF ~Positive(cond.ast) THEN RFail("no_positive_requirement", soft)
-    ELSE IF ext.ast.k # "none" /\ ~Positive(ext.ast) THEN RFail("no_positive_requirement_in_extenders", soft)
+    ELSE IF ~Positive(cond.ast) THEN RFail("no_positive", soft)
+    ELSE IF ext.ast.k # "none" /\ ~Positive(ext.ast) THEN RFail("extender_not_positive", soft)
     ELSE IF ~(IdsOf(cond.ast) \subseteq env.sigs) THEN RFail("unknown_profile", soft)
-    ELSE IF ~(IdsOf(ext.ast) \subseteq env.sigs) THEN RFail("unknown_profile_in_extenders", soft)
+    ELSE IF ~(IdsOf(ext.ast) \subseteq env.sigs) THEN RFail("extender_profile", soft)
     ELSE [ok |-> TRUE, err |-> "", soft |-> soft,
           rule |-> [name |-> t[2].s, category |-> t[4].s, kb |-> t[p + 1].n, nkb |-> t[p + 3].n,
                     superiors |-> RangeOf(sup.ids) \cup UNION {SuperiorsOf(known, s) : s \in RangeOf(sup.ids)},
@@ -410,8 +412,12 @@ PItems(t, i, st, env, mult, soft) ==
             ELSE LET body == Expand(t, i + 3, j - 1, st.aliases)
                      (* an earlier alias mentions this name: binding time is not documented *)
                      late == \E a \in DOMAIN st.aliases : \E p \in DOMAIN st.aliases[a] : st.aliases[a][p].s = name
+                     (* the definition mentions its own name: whether that is an error in itself is not documented
+                        (the name stays an ordinary identifier, so *using* the alias is an unknown profile) *)
+                     self == \E p \in DOMAIN body : body[p].s = name
                  IN  PItems(t, j, [st EXCEPT !.aliases = WithAlias(st.aliases, name, body)], env, mult,
-                            soft \cup (IF late THEN {"alias_forward_reference"} ELSE {}))
+                            soft \cup (IF late THEN {"alias_forward_reference"} ELSE {})
+                                 \cup (IF self THEN {"alias_self_reference"} ELSE {}))
     ELSE IF t[i].k = "RULE" THEN
         LET j == NextIn(t, i + 1, Starters) IN
         IF K(t, i + 1) = "ID" /\ t[i + 1].s \in DOMAIN st.aliases THEN SFail("alias_as_rule_name", soft, st)
